@@ -1,7 +1,7 @@
 (* C13 property theorems.  Nothing but statements closed by `exact`, a pin, and
    Print Assumptions.  The driver parses this file's output. *)
 From ZV.Common Require Import Base.
-From ZV.C13 Require Import Model ModelIO ModelReader ModelRun ProofsLeb ProofsZigzag ProofsSeq ProofsIO ProofsReader.
+From ZV.C13 Require Import Model ModelIO ModelReader ModelTypes ModelVersioned ModelRun ProofsLeb ProofsZigzag ProofsSeq ProofsIO ProofsReader ProofsTypes ProofsVersioned.
 Open Scope N_scope.
 
 (* decode (encode v ++ rest) = (v, |encode v|): for every u64 and every trailing bytes *)
@@ -197,3 +197,75 @@ Theorem zc_reads_concat :
                 zc_stream data st = concat chs ++ zc_stream data st'.
 Proof. exact zc_reads_concat_proof. Qed.
 Print Assumptions zc_reads_concat.
+
+(* the serialisable types as one universe of type codes (fixed-width integers, bool, varint, strings, unit,
+   Option, Box, Rc/Arc, Vec / sets / maps, arrays, tuples, Result, metadata wrapper, arbitrarily nested):
+   every value of every type decodes to itself from its encoding followed by any bytes, consuming exactly
+   the encoding - proved once, by induction on the type code *)
+Theorem types_law :
+  forall t v rest, wt t v -> dec t (enc t v ++ rest) = Some (v, nlen (enc t v)).
+Proof. exact types_law_proof. Qed.
+Check types_law :
+  forall t v rest, wt t v -> dec t (enc t v ++ rest) = Some (v, nlen (enc t v)).
+Print Assumptions types_law.
+
+(* consecutive encodings concatenate and read back in order *)
+Theorem types_concat_law :
+  forall t vs rest, Forall (wt t) vs ->
+    dec_many (dec t) (length vs) (flat_map (enc t) vs ++ rest) = Some (vs, nlen (flat_map (enc t) vs)).
+Proof. exact types_concat_law_proof. Qed.
+Check types_concat_law :
+  forall t vs rest, Forall (wt t) vs ->
+    dec_many (dec t) (length vs) (flat_map (enc t) vs ++ rest) = Some (vs, nlen (flat_map (enc t) vs)).
+Print Assumptions types_concat_law.
+
+(* versioned records, components only: for EVERY schema (plain and versioned fields of any types), every
+   version `cur` of the writing manager and every reading version `rv`: plain fields come back, a versioned
+   field comes back iff both versions are >= its `since` (otherwise it is skipped / absent), and exactly the
+   record's bytes are consumed *)
+Theorem record_fields_law :
+  forall cs vs cur rv rest, wt_comps cs vs ->
+    dec_comps rv cs (enc_comps cur cs vs ++ rest)
+    = Some (expected cur rv cs vs, nlen (enc_comps cur cs vs)).
+Proof. exact record_fields_law_proof. Qed.
+Check record_fields_law :
+  forall cs vs cur rv rest, wt_comps cs vs ->
+    dec_comps rv cs (enc_comps cur cs vs ++ rest)
+    = Some (expected cur rv cs vs, nlen (enc_comps cur cs vs)).
+Print Assumptions record_fields_law.
+
+(* serialize_versioned by a type at version `cur` (8-bit major / minor), deserialize_versioned by a type at
+   ANY version `rcur`: the record as the writer's version defines it, and exactly its bytes *)
+Theorem versioned_record_law :
+  forall cs vs cur rcur rest, narrow cur -> wt_comps cs vs ->
+    dec_versioned rcur cs (enc_versioned cur cs vs ++ rest)
+    = Some (expected cur cur cs vs, nlen (enc_versioned cur cs vs)).
+Proof. exact versioned_record_law_proof. Qed.
+Check versioned_record_law :
+  forall cs vs cur rcur rest, narrow cur -> wt_comps cs vs ->
+    dec_versioned rcur cs (enc_versioned cur cs vs ++ rest)
+    = Some (expected cur cur cs vs, nlen (enc_versioned cur cs vs)).
+Print Assumptions versioned_record_law.
+
+(* VersionedSerializer::deserialize_from_bytes, every configuration, every (writer version, reader version):
+   whatever it accepts is the record ... *)
+Theorem vs_accepted_is_record :
+  forall cfg min_sup cs vs cur rcur rest r, narrow cur -> wt_comps cs vs ->
+    vs_deser cfg min_sup rcur cs (enc_versioned cur cs vs ++ rest) = Some r ->
+    r = expected cur cur cs vs.
+Proof. exact vs_accepted_is_record_proof. Qed.
+Check vs_accepted_is_record :
+  forall cfg min_sup cs vs cur rcur rest r, narrow cur -> wt_comps cs vs ->
+    vs_deser cfg min_sup rcur cs (enc_versioned cur cs vs ++ rest) = Some r ->
+    r = expected cur cur cs vs.
+Print Assumptions vs_accepted_is_record.
+
+(* ... and its own version is accepted under every configuration *)
+Theorem vs_same_version_accepts :
+  forall cfg min_sup cs vs cur rest, narrow cur -> wt_comps cs vs -> ver_le min_sup cur = true ->
+    vs_deser cfg min_sup cur cs (enc_versioned cur cs vs ++ rest) = Some (expected cur cur cs vs).
+Proof. exact vs_same_version_accepts_proof. Qed.
+Check vs_same_version_accepts :
+  forall cfg min_sup cs vs cur rest, narrow cur -> wt_comps cs vs -> ver_le min_sup cur = true ->
+    vs_deser cfg min_sup cur cs (enc_versioned cur cs vs ++ rest) = Some (expected cur cur cs vs).
+Print Assumptions vs_same_version_accepts.
